@@ -341,6 +341,7 @@ var fullCatalogue = []string{
 	"exp-far-past", "exp-just-past", "exp-inside-leeway", "exp-zero", "exp-negative", "exp-string", "exp-huge", "exp-missing",
 	"nbf-future", "nbf-inside-leeway", "iat-future", "nbf-beyond-int64", "nbf-2pow63", "nbf-maxint64", "nbf-far-future", "iat-beyond-int64", "iat-maxint64", "exp-year-one", "resign-other-key", "two-parts", "four-parts", "payload-edit-unsigned",
 	"header-edit-unsigned", "sub-swap-unsigned",
+	"time-spelled-with-fraction-and-exponent", "time-spelled-with-fraction-and-exponent",
 }
 
 var scopeCatalogue = []string{"scope-missing", "scope-char-prefix", "scope-child", "scope-sibling", "scope-dot-prefix", "scope-char-suffix",
@@ -554,6 +555,20 @@ func genToken(t *rapid.T, set []keyEntry, eff assertions, now int64, catalogue [
 			tk.Claims["exp"] = 1e300
 		case "exp-missing":
 			delete(tk.Claims, "exp")
+		case "time-spelled-with-fraction-and-exponent":
+			// a NumericDate is a JSON number (RFC 7519, section 2): any spelling of it means the same time
+			switch rapid.SampledFrom([]string{"nbf-future", "exp-valid", "exp-past", "iat-future", "nbf-past"}).Draw(t, "spelledClaim") {
+			case "nbf-future":
+				tk.Claims["nbf"] = json.Number(rapid.SampledFrom([]string{"9.9e9", "9.9E+9", "99.5e8", "0.99e10"}).Draw(t, "spelling"))
+			case "exp-valid":
+				tk.Claims["exp"] = json.Number(rapid.SampledFrom([]string{"4.1e9", "4.1E9", "41.5e8", "0.41e10"}).Draw(t, "spelling"))
+			case "exp-past":
+				tk.Claims["exp"] = json.Number(rapid.SampledFrom([]string{"1.5e9", "15.5e8", "9.9e8"}).Draw(t, "spelling"))
+			case "iat-future":
+				tk.Claims["iat"] = json.Number(rapid.SampledFrom([]string{"9.9e9", "99.5e8"}).Draw(t, "spelling"))
+			default:
+				tk.Claims["nbf"] = json.Number(rapid.SampledFrom([]string{"1.5e9", "9.9e8", "15.5e8"}).Draw(t, "spelling"))
+			}
 		case "nbf-beyond-int64":
 			tk.Claims["nbf"] = 1e19 // a time far in the future which does not fit into 64 bit seconds
 		case "nbf-2pow63":
